@@ -21,6 +21,7 @@ pub const OPS: &[&str] = &[
     "ne-last",
     "ne-tail",
     "ne-length",
+    "datum-tail-owned-drop",
     "datum-ne-everywhere",
     "datum-ne-last",
     "to_string",
@@ -227,6 +228,18 @@ pub fn child_listop(c: &J) -> String {
                 let d = v.as_cons().map(|c| c.iter().count()).unwrap_or(0);
                 std::mem::forget(v);
                 return format!("ok {}", d);
+            }
+            "datum-tail-owned-drop" => {
+                // an owned datum made from the tail of a long list (its span tree starts at an
+                // inner cell), cloned and dropped
+                let d = lexpr::datum::from_reader(text_of(n, dotted).as_bytes()).expect("parse");
+                let tail = lexpr::datum::Datum::from(d.as_ref().as_pair().expect("pair").1);
+                let c = tail.clone();
+                let k = c.value().as_cons().map(|c| c.iter().count()).unwrap_or(0);
+                drop(c);
+                drop(tail);
+                std::mem::forget(d);
+                return format!("ok {}", k + 1);
             }
             "datum-ne-everywhere" | "datum-ne-last" => {
                 let pattern = op.strip_prefix("datum-ne-").unwrap();
@@ -509,7 +522,7 @@ fn judge(acc: &mut Acc, rank: u64, c: &J, obs: &ChildObs) {
             let n = c["n"].as_u64().unwrap_or(0);
             let dotted = c["shape"].as_str() == Some("dotted");
             let expect: Option<u64> = match op {
-                "build-only" | "clone" | "parse-str-value" | "parse-slice-value" | "parse-reader-value" | "parse-reader-datum" | "parse-str-datum" | "datum-clone" | "datum-into-value" | "serde-to_value" | "serde-from_value"
+                "build-only" | "clone" | "parse-str-value" | "parse-slice-value" | "parse-reader-value" | "parse-reader-datum" | "parse-str-datum" | "datum-clone" | "datum-tail-owned-drop" | "datum-into-value" | "serde-to_value" | "serde-from_value"
                 | "serde-from_str" | "serde-ignored-any" | "serde-unknown-field" | "serde-unknown-field-str" | "serde-struct-field" | "serde-option-vec" | "serde-map-from_value" | "serde-map-to_value" | "serde-tuple-elements" | "cons.to_vec" | "cons.to_ref_vec" | "cons.into_vec" | "iter-count" | "into_iter-exhaust" => Some(n),
                 "value.to_vec" | "value.to_ref_vec" => Some(n),
                 // list_iter-exhaust continues past the first None and counts the tail of a dotted list;
